@@ -1,32 +1,45 @@
 #!/bin/sh
-# /verif/run.sh <Cxx> <quick|thorough>   rebuild from /repo's working tree (tag verif) and run one check
-# /verif/run.sh replay <path>            re-run one recorded case against the current tree
-# /verif/run.sh setup                    offline build + reference-model selftest
-# /verif/run.sh baseline-off             the repository's own suite with the guard OFF
+# run.sh <Cxx> <quick|thorough>   rebuild from the repository's working tree (tag verif) and run one check
+# run.sh replay <path>            re-run one recorded case against the current tree
+# run.sh setup                    offline build + reference-model selftest
+# run.sh baseline-off             the repository's own suite with the guard OFF
+# Registered commands use /verif/run.sh against /repo. For background sweeps on snapshots,
+# QMC_REPO=<dir> points the build at another checkout and the script works from its own directory.
 export GOFLAGS=-mod=mod GOPROXY=off GOSUMDB=off GOTOOLCHAIN=local
-cd /verif/engine || exit 2
+HERE=$(cd "$(dirname "$0")" && pwd)
+REPO=${QMC_REPO:-/repo}
+export QMC_VERIF="$HERE"
+cd "$HERE/engine" || exit 2
+MODFLAG=""
+if [ "$REPO" != "/repo" ]; then
+	sed "s#=> /repo#=> $REPO#" go.mod > go.alt.mod
+	cp go.sum go.alt.sum
+	MODFLAG="-modfile=go.alt.mod"
+fi
 build() {
-	go build -tags verif -o bin/qmc . >bin.build.log 2>&1 || { mkdir -p bin; cat bin.build.log >&2; echo "BUILD FAILED (the tree under /repo does not compile with -tags verif)" >&2; exit 2; }
+	mkdir -p bin "$HERE/evidence"
+	go build $MODFLAG -tags verif -o bin/qmc . >bin.build.log 2>&1 || { cat bin.build.log >&2; echo "BUILD FAILED (the tree under $REPO does not compile with -tags verif)" >&2; exit 2; }
+}
+buildrace() {
+	go build $MODFLAG -race -tags verif -o bin/qmc-race . >bin.build.log 2>&1 || { cat bin.build.log >&2; echo "RACE BUILD FAILED" >&2; exit 2; }
 }
 case "$1" in
 setup)
-	mkdir -p bin /verif/evidence
 	build
-	go build -race -tags verif -o bin/qmc-race . >bin.build.log 2>&1 || { cat bin.build.log >&2; echo "RACE BUILD FAILED" >&2; exit 2; }
+	buildrace
 	./bin/qmc selftest || exit 2
 	;;
 baseline-off)
-	cd /repo && go test -vet=off -count=1 ./...
+	cd "$REPO" && go test -vet=off -count=1 ./...
 	;;
 replay)
 	build
 	exec ./bin/qmc replay "$2"
 	;;
 *)
-	mkdir -p bin /verif/evidence
 	build
 	if [ "$1" = "C20" ]; then
-		go build -race -tags verif -o bin/qmc-race . >bin.build.log 2>&1 || { cat bin.build.log >&2; echo "RACE BUILD FAILED" >&2; exit 2; }
+		buildrace
 	fi
 	exec ./bin/qmc check "$1" --tier "${2:-quick}"
 	;;
